@@ -689,6 +689,8 @@ class DiHypergraph:
                     raise XGIError("Directed edge must be a list or tuple!")
 
                 try:
+                    # tail and head may be one-shot iterators
+                    tail, head = list(tail), list(head)
                     new_edge = {"in": set(tail), "out": set(head)}
                 except TypeError as e:
                     raise XGIError("Invalid ebunch format") from e
@@ -757,8 +759,9 @@ class DiHypergraph:
                 warn(f"uid {idx} already exists, cannot add edge {members}.")
             else:
                 try:
-                    tail = members[0]
-                    head = members[1]
+                    # tail and head may be one-shot iterators
+                    tail = list(members[0])
+                    head = list(members[1])
                     new_edge = {"in": set(tail), "out": set(head)}
                 except TypeError as e:
                     raise XGIError("Invalid ebunch format") from e
